@@ -213,31 +213,11 @@ func (in *Interp) intrinsic(fn *ssa.Function, args []Value) (Value, bool) {
 		// symbolic UTF-8 validation, sequence by sequence (decodeRuneSym forks per encoding class):
 		// well-formed sequences are kept, every run of malformed bytes becomes one replacement
 		in.stub(name)
-		str := args[0].(Str)
-		var out []*Term
 		var repl []*Term
 		if name == "strings.ToValidUTF8" {
 			repl = args[1].(Str).b
 		}
-		valid, inRun := true, false
-		for i := 0; i < len(str.b); {
-			if in.ex.decide(Bin("bvult", str.b[i], C(8, 0x80))) {
-				out = append(out, str.b[i])
-				i, inRun = i+1, false
-				continue
-			}
-			_, sz := in.decodeRuneSym(str.b[i:])
-			if sz == 1 {
-				valid = false
-				if !inRun {
-					out = append(out, repl...)
-				}
-				i, inRun = i+1, true
-				continue
-			}
-			out = append(out, str.b[i:i+sz]...)
-			i, inRun = i+sz, false
-		}
+		out, valid := in.toValidUTF8Sym(args[0].(Str).b, repl)
 		if name == "unicode/utf8.ValidString" {
 			return B(valid), true
 		}
@@ -1212,7 +1192,6 @@ func (in *Interp) placeholder(kind string) Str {
 	return mkStr(kind + "#" + strconv.Itoa(in.phN))
 }
 
-
 // trimSpaceBytes: bytes.TrimSpace over symbolic bytes - ASCII white space, forks on the bytes at both
 // ends (same bound as strings.TrimSpace: non-ASCII contents end the path as assumed away).
 func (in *Interp) trimSpaceBytes(sl Slice) Value {
@@ -1507,4 +1486,30 @@ func (in *Interp) timerField(i int, name string) Value {
 		}
 	}
 	panic(engineError{"no Timer field " + name})
+}
+
+// toValidUTF8Sym: strings.ToValidUTF8 over bytes that may be symbolic (self-tested against the real
+// function); the second result tells whether the input was valid UTF-8 on this path.
+func (in *Interp) toValidUTF8Sym(b []*Term, repl []*Term) ([]*Term, bool) {
+	var out []*Term
+	valid, inRun := true, false
+	for i := 0; i < len(b); {
+		if in.ex.decide(Bin("bvult", b[i], C(8, 0x80))) {
+			out = append(out, b[i])
+			i, inRun = i+1, false
+			continue
+		}
+		_, sz := in.decodeRuneSym(b[i:])
+		if sz == 1 {
+			valid = false
+			if !inRun {
+				out = append(out, repl...)
+			}
+			i, inRun = i+1, true
+			continue
+		}
+		out = append(out, b[i:i+sz]...)
+		i, inRun = i+sz, false
+	}
+	return out, valid
 }
